@@ -42,7 +42,7 @@ static void check(ByteSource& in, CaseInfo& ci) {
   size_t steps = (size_t)in.range(1, 8 + in.scale * 2 / 3); bool any_forced = false; ci.d("history of %zu steps:", steps);
   try {
     // seed the pools with values
-    for (int i = 0; i < NZ; i++) { Int v = gen_int(in, (size_t)expcap(in.scale, 2, 120)); if (i < 2 && in.scale > 40 && in.chance(20)) { Limbs l = limbs_nz(in, (size_t)in.range(2500, 5000)); v = Int::from_limbs(l.data(), l.size(), in.flag()); ci.label("huge_operand_for_heap_temporaries"); } set_value(P, S, i, v); }
+    for (int i = 0; i < NZ; i++) { Int v = gen_int(in, (size_t)expcap(in.scale, 2, 120)); if (in.chance(60)) { v = gen_special(in); ci.label("boundary_value_operand"); } if (i < 2 && in.scale > 40 && in.chance(20)) { Limbs l = limbs_nz(in, (size_t)in.range(2500, 5000)); v = Int::from_limbs(l.data(), l.size(), in.flag()); ci.label("huge_operand_for_heap_temporaries"); } set_value(P, S, i, v); }
     for (int i = 0; i < NQ; i++) { Int n = gen_int(in, 3), d = gen_int(in, 3, false); if (d.is_zero()) d = Int(1); Int g = ref::gcd(n, d); if (!g.is_zero() && !n.is_zero()) { n = ref::tdiv(n, g); d = ref::tdiv(d, g); } if (n.is_zero()) d = Int(1); for (Pool* p : {&P, &S}) { mpz_from_int(mpq_numref(p->q[i]), n); mpz_from_int(mpq_denref(p->q[i]), d); } }
     for (int i = 0; i < NF; i++) { double d = std::ldexp((double)in.srange(-100000, 100000), (int)in.srange(-20, 20)); mpf_set_d(P.f[i], d); mpf_set_d(S.f[i], d); }
     for (size_t st = 0; st < steps; st++) {
